@@ -6,6 +6,8 @@ usage: tools_benign.py <set-name> <dir-with-*.diff> [worktree]
 Stores /verif/benign/<set>-<i>/{patch.diff, result.json}."""
 import sys, os, re, json, glob, subprocess, shutil
 setname, src = sys.argv[1], sys.argv[2]
+import os
+YV = os.environ.get('YV', '/verif/bin/yv')
 wt = sys.argv[3] if len(sys.argv) > 3 else '/tmp/wt-dev'
 def sh(cmd, **kw):
     return subprocess.run(cmd, shell=True, capture_output=True, text=True, errors='replace', **kw)
@@ -19,7 +21,7 @@ if os.path.exists(rp):
         if m: readme[m.group(1)] = m.group(2).strip()
 def alarms(out):
     return sorted(set(l.strip() for l in out.splitlines() if re.match(r'\s*(rule \S+ at|ERROR|UNDECIDED)', l)))
-base = alarms(sh('/verif/bin/yv check -p all -repo %s -evidence /tmp/ev-benign' % wt).stdout)
+base = alarms(sh(YV + ' check -p all -repo %s -evidence /tmp/ev-benign' % wt).stdout)
 base_keys = set(re.sub(r' at \S*:', ' at :', a) for a in base)
 total = bad = 0
 for d in sorted(glob.glob(os.path.join(src, '*.diff')), key=lambda p: int(re.sub(r'\D', '', os.path.basename(p)) or 0)):
@@ -28,7 +30,7 @@ for d in sorted(glob.glob(os.path.join(src, '*.diff')), key=lambda p: int(re.sub
     if r.returncode != 0:
         print(setname, i, 'patch does not apply:', r.stderr.strip()[:200]); continue
     b = sh('cd %s && GOFLAGS=-mod=mod GOPROXY=off go build ./...' % wt)
-    out = sh('/verif/bin/yv check -p all -repo %s -evidence /tmp/ev-benign' % wt).stdout
+    out = sh(YV + ' check -p all -repo %s -evidence /tmp/ev-benign' % wt).stdout
     new = [a for a in alarms(out) if re.sub(r' at \S*:', ' at :', a) not in base_keys]
     sh('git -C %s checkout -- . && git -C %s clean -fdq' % (wt, wt))
     total += 1
